@@ -99,3 +99,26 @@ Section Loops3.
       end; try reflexivity; try lia.
   Qed.
 End Loops3.
+
+(* The shape the translator emits for loop nests over a triple state: every
+   level re-packs the state as (fst (fst t), snd (fst t), snd t). *)
+Section Wrapped.
+  Context {A B C : Type}.
+  Definition w3 (t : A * B * C) : A * B * C := (fst (fst t), snd (fst t), snd t).
+  Lemma w3_id t : w3 t = t.
+  Proof. now destruct t as [[a b] c]. Qed.
+
+  Variable body : Z -> Z -> Z -> A * B * C -> A * B * C.
+  Variables nx ny nz : Z.
+  Definition loopw_k (s : A * B * C) : A * B * C :=
+    Zfold 0 nz (fun k s1 =>
+      w3 (Zfold 0 ny (fun j s2 =>
+        w3 (Zfold 0 nx (fun i s3 => body k j i s3) (w3 s2))) (w3 s1))) s.
+
+  Lemma loopw_k_eq s : loopw_k s = loop_k body nx ny nz s.
+  Proof.
+    unfold loopw_k, loop_k, loop_j, loop_i.
+    apply Zfold_ext. intros k s1 _. rewrite !w3_id.
+    apply Zfold_ext. intros j s2 _. now rewrite !w3_id.
+  Qed.
+End Wrapped.
